@@ -1,4 +1,234 @@
-import PypyrModel.Codec
+/-
+  C16 — structured file steps round-trip and format every string node.
+
+  Model: `PypyrModel/Codec.lean`. What is proved here is pypyr's glue and the string-node map, for
+  EVERY document tree, context, nesting depth and recursion budget:
+
+  * `fmtDoc_maps_strings` — the formatter applied to a document replaces every string node (keys
+    included) by its formatted value and leaves every other node as it is (`DocMap`);
+  * `fileformat_doc_spec` — `parse (fileformatX src) = fmtDoc (parse src)`;
+  * `write_fetch_roundtrip` (+ `_at_key`, `_at_root`, `file_parser_roundtrip`) — fetch after write
+    stores exactly the payload the write step serialised, and that payload is the formatted input;
+  both under the explicit codec hypothesis `c.RoundTrips d` (`∃ t, enc d = some t ∧ dec t = some d`).
+  For YAML (ruamel.yaml) and TOML (tomli_w/tomllib) that hypothesis is validated by generation only
+  (harness/props/c16.py checks it directly on every generated payload; known failure: U+0085).
+  For JSON it is DISCHARGED: `json_roundtrip : Json.parse (Json.print d) = .ok d []` for every document
+  of objects with distinct string keys, arrays, strings, ints, bools, null (`Props/Lemmas/C16_Json*.lean`),
+  hence `json_codec_roundtrips` and the hypothesis-free `write_fetch_roundtrip_json`.
+-/
+import Props.Lemmas.C16_Glue
+import Props.Lemmas.C16_JsonRoundTrip
+
 namespace Pypyr.C16
-theorem placeholder : True := trivial
+open Pypyr.Codec
+
+private def ctxEx : Ctx := [("k1", .str "v1"), ("k2", .int 42)]
+private def docEx : Val :=
+  .dict [(.str "a{k1}", .list [.str "x{k1}", .str "{k2}", .int 1, .none]), (.str "true", .str "true")]
+
+/-- **fmtDoc_maps_strings.** For every document tree `d`: if formatting succeeds with result `d'`
+    then `DocMap ctx d d'` — every string node, keys included, is replaced by its formatted value,
+    lists and mappings are rebuilt entry by entry in order (so the shape is preserved), and every
+    other node is unchanged. -/
+theorem fmtDoc_maps_strings (fuel : Nat) (ctx : Ctx) (d d' : Val) (hd : isDoc d = true)
+    (h : fmtDoc fuel ctx d = .ok d') : DocMap ctx d d' :=
+  fmtIter_docMap ctx fuel d d' hd h
+
+example : fmtDoc 8 ctxEx docEx =
+    .ok (.dict [(.str "av1", .list [.str "xv1", .int 42, .int 1, .none]), (.str "true", .str "true")]) := by
+  decide +kernel
+
+/-- Shape: a list keeps its length… -/
+theorem fmtDoc_list_length (fuel : Nat) (ctx : Ctx) (xs : List Val) (d' : Val)
+    (hd : isDoc (.list xs) = true) (h : fmtDoc fuel ctx (.list xs) = .ok d') :
+    ∃ ys, d' = .list ys ∧ ys.length = xs.length := by
+  have := fmtDoc_maps_strings fuel ctx _ _ hd h
+  simp only [DocMap] at this
+  obtain ⟨ys, rfl, hl⟩ := this
+  exact ⟨ys, rfl, hl.length⟩
+
+/-- …and a mapping whose formatted keys stay pairwise distinct keeps exactly its entries, in order,
+    key and value formatted. -/
+theorem fmtDoc_dict_entries (fuel : Nat) (ctx : Ctx) (kvs : List (Val × Val)) (d' : Val)
+    (hd : isDoc (.dict kvs) = true) (h : fmtDoc fuel ctx (.dict kvs) = .ok d') :
+    ∃ kvs', DocMapPairs ctx kvs kvs' ∧ kvs'.length = kvs.length ∧ d' = .dict (rebuildDict kvs') ∧
+      ((keysOf kvs').Nodup → d' = .dict kvs') := by
+  have := fmtDoc_maps_strings fuel ctx _ _ hd h
+  simp only [DocMap] at this
+  obtain ⟨kvs', rfl, hp⟩ := this
+  exact ⟨kvs', hp, hp.length, rfl, fun hn => by rw [rebuildDict_distinct kvs' hn]⟩
+
+/-- Nodes that are not strings or containers are left exactly as they are. -/
+theorem fmtDoc_scalar_unchanged (fuel : Nat) (ctx : Ctx) (d d' : Val)
+    (hs : d = .none ∨ (∃ b, d = .bool b) ∨ (∃ i, d = .int i) ∨ ∃ n k, d = .flt n k)
+    (h : fmtDoc fuel ctx d = .ok d') : d' = d := by
+  rcases hs with rfl | ⟨b, rfl⟩ | ⟨i, rfl⟩ | ⟨n, k, rfl⟩ <;>
+    · have := fmtDoc_maps_strings fuel ctx _ _ (by simp [isDoc]) h
+      simpa [DocMap] using this
+
+/-- **fileformat_doc_spec.** `ObjectRewriter` at value level: if the source parses to the document
+    `d`, formatting `d` gives `d'`, and the codec round-trips `d'` (the hypothesis), then the step
+    succeeds and its output parses to `d'`, which is `d` with every string node formatted. -/
+theorem fileformat_doc_spec {τ} (c : Codec τ) (fuel : Nat) (ctx : Ctx) (src : τ) (d d' : Val)
+    (hsrc : c.dec src = some d) (hd : isDoc d = true) (hfmt : fmtDoc fuel ctx d = .ok d')
+    (hc : c.RoundTrips d') :
+    ∃ out, fileFormatDoc c fuel ctx src = .ok out ∧ c.dec out = some d' ∧ DocMap ctx d d' := by
+  obtain ⟨t, he, hdec⟩ := hc
+  exact ⟨t, by simp [fileFormatDoc, hsrc, hfmt, he], hdec, fmtDoc_maps_strings fuel ctx d d' hd hfmt⟩
+
+example : fileFormatDoc Codec.ideal 8 ctxEx docEx =
+    .ok (.dict [(.str "av1", .list [.str "xv1", .int 42, .int 1, .none]), (.str "true", .str "true")]) := by
+  decide +kernel
+
+/-- **write_fetch_roundtrip.** If the write step hands payload `p'` to the serialiser for `path`,
+    the codec round-trips `p'` (the hypothesis), and the fetch step is pointed at the same path, then
+    the write succeeds and the fetch step stores exactly `p'` (at the key, or merged at root). -/
+theorem write_fetch_roundtrip {τ} (f : Format) (c : Codec τ) (fuel fuel2 : Nat) (ctx ctx2 : Ctx)
+    (files : Files τ) (path : String) (p' : Val) (key : Option Val)
+    (hw : writePayload f fuel ctx = .ok (path, p')) (hc : c.RoundTrips p')
+    (hf : fetchArgs f fuel2 ctx2 = .ok (path, key)) :
+    ∃ files', fileWrite f c fuel ctx files = .ok files' ∧
+      fetch f c fuel2 ctx2 files' = store ctx2 key p' := by
+  obtain ⟨t, he, hd⟩ := hc
+  exact ⟨files.set path t, fileWrite_ok f c fuel ctx files path p' t hw he,
+    fetch_eq_store f c fuel2 ctx2 _ path key t p' hf (Files.get?_set_self files path t) hd⟩
+
+/-- Round trip into a destination key: `context[key]` is the payload that was written. -/
+theorem write_fetch_roundtrip_at_key {τ} (f : Format) (c : Codec τ) (fuel fuel2 : Nat) (ctx ctx2 : Ctx)
+    (files : Files τ) (path k : String) (p' : Val) (hk : k ≠ "")
+    (hw : writePayload f fuel ctx = .ok (path, p')) (hc : c.RoundTrips p')
+    (hf : fetchArgs f fuel2 ctx2 = .ok (path, some (.str k))) :
+    ∃ files' ctx', fileWrite f c fuel ctx files = .ok files' ∧
+      fetch f c fuel2 ctx2 files' = .ok ctx' ∧ ctx'.get? k = some p' ∧
+      ∀ k2, k2 ≠ k → ctx'.get? k2 = ctx2.get? k2 := by
+  obtain ⟨files', h1, h2⟩ := write_fetch_roundtrip f c fuel fuel2 ctx ctx2 files path p' _ hw hc hf
+  refine ⟨files', Ctx.set ctx2 k p', h1, ?_, Ctx.get?_set_self ctx2 k p',
+    fun k2 h => Ctx.get?_set_other ctx2 k k2 p' h⟩
+  rw [h2]
+  simp [store, Val.truthy, hk]
+
+/-- Round trip merged at context root (no key, or an empty key): every entry of the written
+    mapping is in the context afterwards. -/
+theorem write_fetch_roundtrip_at_root {τ} (f : Format) (c : Codec τ) (fuel fuel2 : Nat) (ctx ctx2 : Ctx)
+    (files : Files τ) (path : String) (kvs : List (Val × Val)) (es : List (String × Val))
+    (key : Option Val) (hkey : key = none ∨ key = some (.str ""))
+    (hes : strEntries kvs = some es) (hnd : (es.map (·.1)).Nodup)
+    (hw : writePayload f fuel ctx = .ok (path, .dict kvs)) (hc : c.RoundTrips (.dict kvs))
+    (hf : fetchArgs f fuel2 ctx2 = .ok (path, key)) :
+    ∃ files' ctx', fileWrite f c fuel ctx files = .ok files' ∧
+      fetch f c fuel2 ctx2 files' = .ok ctx' ∧ ∀ kv ∈ es, ctx'.get? kv.1 = some kv.2 := by
+  obtain ⟨files', h1, h2⟩ := write_fetch_roundtrip f c fuel fuel2 ctx ctx2 files path _ key hw hc hf
+  refine ⟨files', Ctx.update ctx2 es, h1, ?_, Ctx.get?_update es ctx2 hnd⟩
+  rw [h2]
+  rcases hkey with rfl | rfl <;> simp [store, hes, Val.truthy]
+
+/-- The payload the write step serialises is the `payload` entry of the step's input with every
+    string node of the input formatted — or, when no payload is given, the whole formatted context. -/
+theorem write_payload_is_formatted (f : Format) (fuel : Nat) (ctx : Ctx) (raw : List (Val × Val))
+    (path : String) (p' : Val) (hin : ctx.get? f.writeKey = some (.dict raw))
+    (hraw : isDocPairs raw = true) (hw : writePayload f fuel ctx = .ok (path, p')) :
+    ∃ input, DocMapPairs ctx raw input ∧
+      (dictGet? (rebuildDict input) (.str "payload") = some p' ∨
+       (dictGet? (rebuildDict input) (.str "payload") = none ∧ fmtDoc fuel ctx (Ctx.toVal ctx) = .ok p')) := by
+  simp only [writePayload, formattedInput, hin] at hw
+  cases hfm : fmtVal fuel ctx (.dict raw) with
+  | error e => simp [hfm] at hw
+  | ok v =>
+    have hm := fmtDoc_maps_strings fuel ctx (.dict raw) v (by simpa [isDoc] using hraw) hfm
+    simp only [DocMap] at hm
+    obtain ⟨input, rfl, hp⟩ := hm
+    refine ⟨input, hp, ?_⟩
+    simp only [hfm] at hw
+    cases hpath : pathOf (rebuildDict input) with
+    | error e => simp [hpath] at hw
+    | ok pth =>
+      simp only [hpath] at hw
+      cases hpl : dictGet? (rebuildDict input) (.str "payload") with
+      | none =>
+        simp only [hpl] at hw
+        right
+        refine ⟨rfl, ?_⟩
+        cases hwh : fmtVal fuel ctx (Ctx.toVal ctx) with
+        | error e => simp [hwh] at hw
+        | ok whole =>
+          simp only [hwh, Except.ok.injEq, Prod.mk.injEq] at hw
+          simp [fmtDoc, hwh, hw.2]
+      | some payload =>
+        simp only [hpl] at hw
+        left
+        split at hw
+        · cases hw
+        · simp only [Except.ok.injEq, Prod.mk.injEq] at hw
+          simp [hw.2]
+
+/-- The file context parsers: a file written from a mapping payload is parsed back to it. -/
+theorem file_parser_roundtrip {τ} (f : Format) (c : Codec τ) (fuel : Nat) (ctx : Ctx) (files : Files τ)
+    (path : String) (kvs : List (Val × Val))
+    (hw : writePayload f fuel ctx = .ok (path, .dict kvs)) (hc : c.RoundTrips (.dict kvs)) :
+    ∃ files' t, fileWrite f c fuel ctx files = .ok files' ∧ files'.get? path = some t ∧
+      fileParser c t = .ok (.dict kvs) := by
+  obtain ⟨t, he, hd⟩ := hc
+  exact ⟨files.set path t, t, fileWrite_ok f c fuel ctx files path _ t hw he,
+    Files.get?_set_self files path t, by simp [fileParser, hd]⟩
+
+private def wctxEx : Ctx :=
+  [("k1", .str "v1"),
+   ("fileWriteJson", .dict [(.str "path", .str "out/f.json"),
+      (.str "payload", .dict [(.str "a", .str "x{k1}"), (.str "n", .list [.int 1, .none])])])]
+private def fctxEx : Ctx :=
+  [("fetchJson", .dict [(.str "path", .str "out/f.json"), (.str "key", .str "out")])]
+
+example : writePayload .json 8 wctxEx =
+    .ok ("out/f.json", .dict [(.str "a", .str "xv1"), (.str "n", .list [.int 1, .none])]) ∧
+    fetchArgs .json 8 fctxEx = .ok ("out/f.json", some (.str "out")) := by
+  decide +kernel
+
+/-- The defect repaired by 37680ff, as a witness: with the OLD closing log statement
+    (`len(payload)` unguarded) fetching a top-level number into a key raised, although the file
+    had been written and parsed (the value is JSON-representable). -/
+theorem fetch_scalar_raises_pre_fix :
+    fetchWith false .json Codec.ideal 8 fctxEx [("out/f.json", Val.int 42)]
+      = .error (typeError "object has no len()") ∧
+    fetch .json Codec.ideal 8 fctxEx [("out/f.json", Val.int 42)]
+      = .ok (Ctx.set fctxEx "out" (.int 42)) := by
+  decide +kernel
+
+/-! ### JSON: the codec hypothesis discharged -/
+
+/-- **json_roundtrip.** For every document of objects with pairwise distinct string keys, arrays,
+    strings, ints, bools and null (floats excluded), parsing what the printer prints gives the
+    document back, with nothing left over. The printer mirrors
+    `json.dump(d, f, indent=2, ensure_ascii=False)`, the parser `json.load` (tied by correspondence). -/
+theorem json_roundtrip (d : Val) (h : Json.isJson false d = true) :
+    Json.parse (Json.print d) = .ok d [] :=
+  Json.parse_print d h
+
+/-- The JSON codec satisfies the hypothesis of the theorems above on its whole (float-free) domain. -/
+theorem json_codec_roundtrips (d : Val) (h : Json.isJson false d = true) : Json.codec.RoundTrips d := by
+  refine ⟨Json.print d, ?_, ?_⟩
+  · simp [Json.codec, Json.isJson_mono d h]
+  · simp [Json.codec, json_roundtrip d h]
+
+/-- **write_fetch_roundtrip for JSON, without hypothesis on the codec.** -/
+theorem write_fetch_roundtrip_json (fuel fuel2 : Nat) (ctx ctx2 : Ctx) (files : Files (List Char))
+    (path : String) (p' : Val) (key : Option Val)
+    (hw : writePayload .json fuel ctx = .ok (path, p')) (hj : Json.isJson false p' = true)
+    (hf : fetchArgs .json fuel2 ctx2 = .ok (path, key)) :
+    ∃ files', fileWrite .json Json.codec fuel ctx files = .ok files' ∧
+      fetch .json Json.codec fuel2 ctx2 files' = store ctx2 key p' :=
+  write_fetch_roundtrip .json Json.codec fuel fuel2 ctx ctx2 files path p' key hw
+    (json_codec_roundtrips p' hj) hf
+
+/-- **fileformat_doc_spec for JSON, without hypothesis on the codec.** -/
+theorem fileformatjson_doc_spec (fuel : Nat) (ctx : Ctx) (src : List Char) (d d' : Val)
+    (hsrc : Json.codec.dec src = some d) (hd : isDoc d = true) (hfmt : fmtDoc fuel ctx d = .ok d')
+    (hj : Json.isJson false d' = true) :
+    ∃ out, fileFormatDoc Json.codec fuel ctx src = .ok out ∧ Json.codec.dec out = some d' ∧ DocMap ctx d d' :=
+  fileformat_doc_spec Json.codec fuel ctx src d d' hsrc hd hfmt (json_codec_roundtrips d' hj)
+
+example : Json.print docEx =
+    "{\n  \"a{k1}\": [\n    \"x{k1}\",\n    \"{k2}\",\n    1,\n    null\n  ],\n  \"true\": \"true\"\n}".toList ∧
+    Json.parse (Json.print docEx) = .ok docEx [] := by
+  decide +kernel
+
 end Pypyr.C16
